@@ -64,6 +64,7 @@ func (t *Transcoder) ServeHTTP(writer http.ResponseWriter, request *http.Request
 
 	if t.unknownHandler != nil && errors.Is(err, errNotFound) {
 		op.request.Header = op.originalHeaders // restore headers, just in case initialization removed keys
+		op.request.ContentLength = op.contentLen
 		t.unknownHandler.ServeHTTP(writer, op.request)
 		return
 	}
@@ -79,6 +80,7 @@ func (t *Transcoder) ServeHTTP(writer http.ResponseWriter, request *http.Request
 		// No transformation needed. But we do need to restore the original headers first
 		// since extracting request metadata may have removed keys.
 		op.request.Header = op.originalHeaders
+		op.request.ContentLength = op.contentLen
 		op.methodConf.handler.ServeHTTP(writer, op.request)
 		return
 	}
@@ -456,12 +458,6 @@ func (o *operation) validate(transcoder *Transcoder) error {
 		return errNotFound
 	}
 
-	// Now that we've ruled out the use of bidi streaming above, it's safe to simulate HTTP/2
-	// for the benefit of gRPC handlers, which require HTTP/2.
-	if o.server.protocol.protocol() == ProtocolGRPC {
-		o.request.Proto, o.request.ProtoMajor, o.request.ProtoMinor = "HTTP/2", 2, 0
-	}
-
 	if o.server.protocol.protocol() == ProtocolREST {
 		// REST always defaults to JSON.
 		// This is fine to set even if a custom content-type is used via
@@ -494,6 +490,12 @@ func (o *operation) queryValues() url.Values {
 }
 
 func (o *operation) handle() {
+	// Bidi streaming over HTTP/1 was ruled out during validation, so it's safe to simulate
+	// HTTP/2 for the benefit of gRPC handlers, which require HTTP/2.
+	if o.server.protocol.protocol() == ProtocolGRPC {
+		o.request.Proto, o.request.ProtoMajor, o.request.ProtoMinor = "HTTP/2", 2, 0
+	}
+
 	o.clientEnveloper, _ = o.client.protocol.(envelopedProtocolHandler)
 	o.clientPreparer, _ = o.client.protocol.(clientBodyPreparer)
 	if o.clientPreparer != nil {
